@@ -861,6 +861,79 @@ def r11(ctx):
             ctx.ok(construct, f'{len(probes)} probe tokens, one per branch of the unit/notation dispatch')
 
 
+DOC_PROBES = [
+    ('global defaults, inline override, later global line',
+     "global coord=B1950, color=blue\ncircle[[1deg, 2deg], 3deg]\n-ann circle[[1deg,2deg],3deg], color=red\n"
+     "+box[[1deg,2deg],[3deg,4deg]] coord=GALACTIC\nglobal color=green\nellipse[[1deg, 2deg], [3deg, 4deg], 5deg]", 'strict',
+     [({'coord': 'B1950', 'color': 'blue'}, '+', 'reg', 'circle', 'circle[[1deg, 2deg], 3deg]', ''),
+      ({'coord': 'B1950', 'color': 'blue'}, '-', 'ann', 'circle', '[[1deg,2deg],3deg]', 'color=red'),
+      ({'coord': 'B1950', 'color': 'blue'}, '+', 'reg', 'box', '[[1deg,2deg],[3deg,4deg]]', 'coord=GALACTIC'),
+      ({'coord': 'B1950', 'color': 'green'}, '+', 'reg', 'ellipse', '[[1deg, 2deg], [3deg, 4deg], 5deg]', '')]),
+    ('comments and blank lines are skipped',
+     "#CRTFv0\n\n# a comment, with global coord=B1950 inside\ncircle[[1deg, 2deg], 3deg]\n", 'strict',
+     [({}, '+', 'reg', 'circle', '[[1deg, 2deg], 3deg]', '')]),
+    ('ann marks annotations; +/- include',
+     "ann circle[[1deg, 2deg], 3deg]\n+ann box[[1deg,2deg],[3deg,4deg]]\n-circle[[1deg, 2deg], 3deg]", 'strict',
+     [({}, '+', 'ann', 'circle', '[[1deg, 2deg], 3deg]', ''), ({}, '+', 'ann', 'box', '[[1deg,2deg],[3deg,4deg]]', ''),
+      ({}, '-', 'reg', 'circle', '[[1deg, 2deg], 3deg]', '')]),
+    ('global keys are case-insensitive; list-valued global keys',
+     "global COORD=J2000, range=[1GHz, 2GHz], corr=[I, Q]\nsymbol[[1deg, 2deg], .]", 'strict',
+     [({'coord': 'J2000', 'range': ['1GHz', '2GHz'], 'corr': ['I', 'Q']}, '+', 'reg', 'symbol', '[[1deg, 2deg], .]', '')]),
+    ('unknown region type is an error', "foo[[1deg, 2deg], 3deg]", 'strict', 'CRTFRegionParserError'),
+    ('a line that is no region is an error', "this is not a region", 'strict', 'CRTFRegionParserError'),
+    ('unknown global key is an error', "global bogus=1", 'strict', 'CRTFRegionParserError'),
+    ("errors='warn': a bad line does not affect the others",
+     "foo[[1deg, 2deg], 3deg]\ncircle[[1deg, 2deg], 3deg]", 'warn', [({}, '+', 'reg', 'circle', '[[1deg, 2deg], 3deg]', '')]),
+]
+
+
+def r12(ctx):
+    """document level (CASA rules): the CRTF parser is partially evaluated on probe documents with the per-line region
+    parser replaced by a recorder — which lines become regions, with which include sign, annotation type, shape keyword,
+    bracket text, inline metadata text, and which global defaults are in force at that line."""
+    m = ctx.model
+    P = m.cls('_CRTFParser')
+    RP = m.cls('_CRTFRegionParser')
+    init = method_or_fail(ctx, P, '__init__')
+
+    def plain(x):
+        if isinstance(x, DictV):
+            return {k: plain(x.get(k)) for k in x.keys()}
+        if isinstance(x, Tup):
+            return [plain(i) for i in x.items]
+        if isinstance(x, Const):
+            return x.v
+        return show(x, 80)
+    for title, doc, errors, want in DOC_PROBES:
+        recs = []
+
+        def rp(ev, a, k, recs=recs):
+            recs.append(tuple(plain(x) for x in a))
+            return Obj('_CRTFRegionParser', {'shape': Obj('_Shape', {}, f'shape{len(recs)}')}, None, RP)
+        ev = Evaluator(m, hooks={'_CRTFRegionParser': rp})
+        out = ev.run(init, [Obj('_CRTFParser', {}, 'parser', P), Const(doc)], {'errors': Const(errors)})
+        definite = [n for pc, n, _ in out.raises if not [c for c in pc if not (isinstance(c, Const) and c.v is True)]]
+        if [1 for pc, n, _ in out.raises if [c for c in pc if not isinstance(c, Const)]]:
+            raise AnalysisError('C11.R12', title, 'document parser not reducible on a constant document: '
+                                + show(ev.conj(out.raises[0][0]), 200))
+        if isinstance(want, str):
+            if want in definite:
+                ctx.ok(title, f'raises {want}')
+            else:
+                ctx.bad(title, 'no-error', f'the document {doc!r} is accepted (records {recs}, raises {definite}); CASA rules make it a '
+                        f'{want}', init.loc())
+            continue
+        got = [(r[0], r[1], r[2], r[3], r[4], (r[5] or '')) for r in recs if len(r) >= 6]
+        ok = not definite and len(got) == len(want) and all(
+            g[0] == w[0] and g[1:4] == w[1:4] and w[4] in g[4] and g[5].strip() == w[5] for g, w in zip(got, want))
+        if ok:
+            ctx.ok(title, f'{len(want)} region line(s) with the expected include / type / shape / defaults / metadata text')
+        else:
+            ctx.bad(title, 'document-parse',
+                    f'the document {doc!r} is split into {got} (raises {definite}); expected (global defaults, include, type, shape, '
+                    f'bracket text, metadata text) = {want}', init.loc())
+
+
 RULES = [
     RuleDef('R1', 'frame tables mutually inverse', r1, 8),
     RuleDef('R2', 'shape vocabulary: class -> type -> token -> class; text written', r2, 17),
@@ -872,5 +945,6 @@ RULES = [
     RuleDef('R8', 'CASA frame keywords; read-side box notations; metadata key agreement', r8, 5),
     RuleDef('R10', 'list-valued metadata keys are written in the bracket form the reader splits', r10, 3),
     RuleDef('R11', 'coordinate and length token lexers (one probe token per dispatch branch)', r11, 2),
+    RuleDef('R12', 'document level: global defaults, comments, ann/include prefixes, errors (probe documents)', r12, 8),
     RuleDef('R9', 'label and text values: written quoting is what the line/metadata regexes lex; bound to the region', r9, 4),
 ]
